@@ -216,7 +216,17 @@ pub fn declared_exclusions(
     box_map: Option<&[(Vec<String>, u64, u64, Option<bool>)]>,
 ) -> Option<(String, Ranges)> {
     let active = detailed.get("active_manifest")?.as_str()?;
-    let store = detailed.get("manifests")?.get(active)?.get("assertion_store")?.as_object()?;
+    declared_exclusions_of(detailed, active, original, box_map)
+}
+
+/// Same, for the manifest with label `manifest`.
+pub fn declared_exclusions_of(
+    detailed: &Value,
+    manifest: &str,
+    original: &[u8],
+    box_map: Option<&[(Vec<String>, u64, u64, Option<bool>)]>,
+) -> Option<(String, Ranges)> {
+    let store = detailed.get("manifests")?.get(manifest)?.get("assertion_store")?.as_object()?;
     for (label, a) in store {
         if label.starts_with("c2pa.hash.data") {
             let mut r = Ranges::new();
